@@ -8,6 +8,7 @@ pub mod overflow;
 pub mod serde_eng;
 pub mod shadow;
 pub mod shapes;
+pub mod slices;
 pub mod thin;
 pub mod tk;
 pub mod uninit;
